@@ -52,7 +52,7 @@ import (
 //
 //	(set ok|err|panic CLI)
 //	(run ok|err-charset|err-set STMT BE CLI CONN)   BE is the backend session when the statement executed (ok) / after the failure
-//	(sync ok|err-set STMT BE CONN)
+//	(sync ok|err-set STMT BE CONN)                  BE is the backend session the transaction starts on
 //	bad
 //	CLI  = (cli CS COLL (NAME s|i|u VALUE)…)         the proxy's record of the client, sorted
 //	BE   = (be CS COLLNAME (NAME TEXT)…)
@@ -65,6 +65,7 @@ func init() {
 		Rule: "histories of 2-4 clients over a pool of 1-3 connections (mixed server versions): SET of allow-listed, namespace-allowed, user and unknown variables " +
 			"with int/word/string literals incl. DEFAULT/NULL/boundary ints/bad values and with expressions (CONCAT, +, user / session / global variables) as values, both spellings of transaction_read_only held by one client, SET NAMES with and without COLLATE (matching, mismatching, unknown, >247), " +
 			"statement executions and transaction starts on chosen connections with the backend accepting or rejecting (1231 sql_mode / other) the SET statement; " +
+			"plus three focused streams (two spellings on a >= 8.0.3 backend; changes after an executed statement followed by a rejected SET; clients taking turns on one connection whose settings are a subset / the empty set / the same / a superset / other values / disjoint, with and without a charset difference); " +
 			"non-trivial = at least one client statement executed on a backend after a SET statement was sent",
 		Generate: genC20,
 		Exec:     execC20,
@@ -827,6 +828,10 @@ func c20Flags(version string) (coll247, v803 bool) {
 func genC20(g *core.Gen) {
 	n := g.Scale(2000, 25000)
 	for i := 0; i < n; i++ {
+		if i%8 == 5 {
+			c20GenShare(g)
+			continue
+		}
 		c20GenCase(g, i%8 == 7, i%8 == 3)
 	}
 	if g.Tier != "quick" {
@@ -874,6 +879,179 @@ func c20Exhaustive(g *core.Gen) {
 
 var c20Charsets = []c20CS{{"utf8mb4", 46}, {"utf8mb4", 45}, {"utf8", 33}, {"utf8", 83}, {"latin1", 8}, {"gbk", 28}, {"binary", 63}, {"utf8mb4", 255}, {"utf8mb4", 224}, {"utf8mb4", 0}, {"latin1", 0},
 	{"utf8mb4", 246}, {"utf8mb4", 247}, {"gb18030", 248}, {"gb18030", 249}, {"utf8mb4", 256}, {"utf8mb4", 9999}, {"latin1", 46}}
+
+// c20GenShare emits one history of the sharing stream: two or three clients take turns on ONE pooled
+// connection. Client 0 holds a set A of one to four variables; every other client's settings stand in a chosen
+// relation to A — a strict non-empty subset with equal values (the only difference is that variables must be
+// dropped), the empty set, the same set, a superset, the same names with other values, a disjoint set — with the
+// same charset as client 0 or another one. All values are literals every backend accepts; rejected SET
+// statements are rare. (Seeded change that was missed: SetEqualsWith not reporting a change when variables are
+// only dropped.)
+func c20GenShare(g *core.Gen) {
+	tags := []string{"share-stream"}
+	type slot struct {
+		kind, name string
+		vals       []core.Sexp
+	}
+	lit := func(kind string, s string) core.Sexp { return core.L(core.A(kind), core.Text(s)) }
+	intLit := func(n string) core.Sexp { return core.L(core.A("i"), core.A(n)) }
+	pool := []slot{
+		{"sys", "sql_select_limit", []core.Sexp{intLit("1"), intLit("5"), intLit("100")}},
+		{"sys", "time_zone", []core.Sexp{lit("s", "+08:00"), lit("s", "-05:30")}},
+		{"sys", "sql_safe_updates", []core.Sexp{intLit("0"), intLit("1")}},
+		{"sys", "group_concat_max_len", []core.Sexp{intLit("1024"), intLit("2048")}},
+		{"sys", "sql_mode", []core.Sexp{lit("s", "ANSI"), lit("s", "STRICT_TRANS_TABLES")}},
+		{"user", "x", []core.Sexp{intLit("1"), lit("s", "abc")}},
+		{"user", "y", []core.Sexp{intLit("7"), lit("s", "a b")}},
+		{"sys", "tx_read_only", []core.Sexp{intLit("1"), intLit("0")}},
+		{"sys", "max_execution_time", []core.Sexp{intLit("100"), intLit("200")}},
+		{"sys", "unique_checks", []core.Sexp{intLit("0"), intLit("1")}},
+		{"sys", "lock_wait_timeout", []core.Sexp{intLit("3"), intLit("50")}},
+	}
+	type asg struct {
+		slot int
+		val  int
+	}
+	sexpOf := func(a asg) core.Sexp {
+		sl := pool[a.slot]
+		return core.L(core.A("a"), core.A(sl.kind), core.Text(sl.name), sl.vals[a.val])
+	}
+	proxyVer := core.Pick(g, []string{"5.6.20-gaea", "5.7.25-gaea", "8.0.30-gaea"})
+	_, proxy803 := c20Flags(proxyVer)
+	version := core.Pick(g, []string{"5.7.25", "5.7.25", "", "8.0.30", "8.0.2"})
+	c247, v803 := c20Flags(version)
+	if v803 {
+		tags = append(tags, "conn-ge-8.0.3")
+	}
+	def := core.Pick(g, []c20CS{{"utf8mb4", 46}, {"utf8mb4", 45}, {"utf8", 33}, {"latin1", 8}})
+	nClients := 2 + g.Intn(2)
+	clients := []core.Sexp{core.A("clients")}
+	for i := 0; i < nClients; i++ {
+		cs := def
+		if i > 0 && g.Intn(2) == 0 {
+			cs = core.Pick(g, []c20CS{{"utf8mb4", 46}, {"utf8", 33}, {"latin1", 8}, {"gbk", 28}})
+			if cs != def {
+				tags = append(tags, "share-other-charset")
+			}
+		}
+		clients = append(clients, core.L(core.Text(cs.name), core.I(int64(cs.id))))
+	}
+	conns := []core.Sexp{core.A("conns"), core.L(core.Text(def.name), core.I(int64(def.id)), core.Text(version), core.B(c247), core.B(v803))}
+
+	// client 0's set A: distinct variables
+	perm := g.Rand.Perm(len(pool))
+	m := 1 + g.Intn(4)
+	var setA []asg
+	for _, si := range perm[:m] {
+		setA = append(setA, asg{si, g.Intn(len(pool[si].vals))})
+	}
+	rest := perm[m:]
+	sets := [][]asg{setA}
+	for i := 1; i < nClients; i++ {
+		var b []asg
+		rel := g.Intn(7)
+		if m == 1 && (rel == 0 || rel == 6) {
+			rel = 1 // no strict non-empty subset of one variable
+		}
+		switch rel {
+		case 0, 6: // strict non-empty subset, equal values
+			tags = append(tags, "share-subset")
+			k := 1 + g.Intn(m-1)
+			for _, j := range g.Rand.Perm(m)[:k] {
+				b = append(b, setA[j])
+			}
+		case 1:
+			tags = append(tags, "share-empty")
+		case 2:
+			tags = append(tags, "share-same")
+			b = append(b, setA...)
+		case 3:
+			tags = append(tags, "share-superset")
+			b = append(b, setA...)
+			for _, si := range rest[:1+g.Intn(2)] {
+				b = append(b, asg{si, g.Intn(len(pool[si].vals))})
+			}
+		case 4: // same names, other values for some
+			tags = append(tags, "share-other-values")
+			for j, a := range setA {
+				if j == 0 || g.Intn(2) == 0 {
+					a.val = (a.val + 1) % len(pool[a.slot].vals)
+				}
+				b = append(b, a)
+			}
+		case 5:
+			tags = append(tags, "share-disjoint")
+			for _, si := range rest[:1+g.Intn(2)] {
+				b = append(b, asg{si, g.Intn(len(pool[si].vals))})
+			}
+		}
+		sets = append(sets, b)
+	}
+	ops := []core.Sexp{core.A("ops")}
+	emitSet := func(c int) {
+		as := sets[c]
+		if len(as) == 0 {
+			return
+		}
+		// in the order of a random permutation, as one statement or one statement per variable
+		order := g.Rand.Perm(len(as))
+		if g.Intn(2) == 0 {
+			xs := []core.Sexp{core.A("set"), core.I(int64(c))}
+			for _, j := range order {
+				xs = append(xs, sexpOf(as[j]))
+			}
+			ops = append(ops, core.L(xs...))
+			return
+		}
+		for _, j := range order {
+			ops = append(ops, core.L(core.A("set"), core.I(int64(c)), sexpOf(as[j])))
+		}
+	}
+	use := func(c int) {
+		kind, f := "run", "ok"
+		if g.Intn(5) == 0 {
+			kind = "sync"
+			tags = append(tags, "sync")
+		}
+		if g.Intn(12) == 0 {
+			f = core.Pick(g, []string{"sqlmode", "other"})
+			tags = append(tags, "fault-"+f)
+		}
+		ops = append(ops, core.L(core.A(kind), core.I(int64(c)), core.I(0), core.A(f)))
+	}
+	emitSet(0)
+	late := g.Intn(3) == 0 // the others set their variables after client 0's first statement
+	if !late {
+		for c := 1; c < nClients; c++ {
+			emitSet(c)
+		}
+	}
+	ops = append(ops, core.L(core.A("run"), core.I(0), core.I(0), core.A("ok")))
+	if late {
+		for c := 1; c < nClients; c++ {
+			emitSet(c)
+		}
+	}
+	for c := 1; c < nClients; c++ {
+		use(c)
+	}
+	use(0)
+	for i, n := 0, g.Intn(5); i < n; i++ {
+		use(g.Intn(nClients))
+	}
+	in := core.L(core.A("c20"),
+		core.L(core.A("cfg"), core.Text(def.name), core.I(int64(def.id)), core.Text(proxyVer), core.B(proxy803), core.L(core.A("allowed"))),
+		core.L(clients...), core.L(conns...), core.L(ops...))
+	seen := map[string]bool{}
+	var ts []string
+	for _, t := range tags {
+		if !seen[t] {
+			seen[t] = true
+			ts = append(ts, t)
+		}
+	}
+	g.Emit(in, ts...)
+}
 
 // c20GenCase emits one history. alias: the focused stream for backends that
 // know tx_read_only only as transaction_read_only (proxy advertising 5.x,
